@@ -25,12 +25,105 @@ fn replay_case(prop: &str, case: &Value) -> Vec<Violation> {
         "cli" => props::cli::replay(prop, case),
         "time" | "time-mono" => props::time::replay(case),
         "doc" => props::doc::replay(prop, case),
+        "doc-plain" => replay_plain(prop, case),
         "tag" | "tag-opaque" => props::tag::replay(case),
         other => {
             eprintln!("MACHINERY: unknown replay engine {other:?}");
             vec![]
         }
     }
+}
+
+const PLAIN_BIN: &str = "/verif/target/mc/plain/mc";
+
+/// C01's second observation point: the same exploration on a plain `--release` build of harness
+/// and subject (no overflow checks, no debug assertions), run as a child process.
+fn plain_release_pass(r: &Report, tier: &str) {
+    if !std::path::Path::new(PLAIN_BIN).exists() {
+        r.machinery_failure(format!("{PLAIN_BIN} not built (the driver builds it for C01)"));
+        return;
+    }
+    let out = std::process::Command::new(PLAIN_BIN)
+        .args(["C01", tier])
+        .env("MC_PLAIN_CHILD", "1")
+        .output();
+    let out = match out {
+        Ok(o) => o,
+        Err(e) => {
+            r.machinery_failure(format!("cannot run {PLAIN_BIN}: {e}"));
+            return;
+        }
+    };
+    if !out.status.success() {
+        r.machinery_failure(format!(
+            "plain-release child terminated abnormally ({:?}); not a verdict",
+            out.status
+        ));
+        return;
+    }
+    let text = String::from_utf8_lossy(&out.stdout);
+    let Some(line) = text.lines().rev().find(|l| l.starts_with('{')) else {
+        r.machinery_failure("plain-release child produced no summary".into());
+        return;
+    };
+    let v: Value = match serde_json::from_str(line) {
+        Ok(v) => v,
+        Err(e) => {
+            r.machinery_failure(format!("plain-release child summary unreadable: {e}"));
+            return;
+        }
+    };
+    for m in v["machinery_failures"].as_array().cloned().unwrap_or_default() {
+        r.machinery_failure(format!("plain-release child: {m}"));
+    }
+    for x in v["violations"].as_array().cloned().unwrap_or_default() {
+        let mut case = x["case"].clone();
+        case["engine"] = Value::String("doc-plain".into());
+        r.violation(Violation {
+            prop: "C01".into(),
+            class: format!("plain-release:{}", x["class"].as_str().unwrap_or("?")),
+            case,
+            detail: format!("[plain --release build] {}", x["detail"].as_str().unwrap_or("")),
+        });
+    }
+    r.extra(
+        "plain_release_build",
+        serde_json::json!({"evaluations": v["evaluations"], "states": v["states"],
+            "violations_total_observed": v["violations_total_observed"], "outcome_classes": v["outcome_classes"]}),
+    );
+}
+
+/// replay of a plain-release counterexample: run the plain binary on it
+fn replay_plain(prop: &str, case: &Value) -> Vec<Violation> {
+    let dir = "/verif/target/tmp";
+    let _ = std::fs::create_dir_all(dir);
+    let path = format!("{dir}/plain-replay-{}.json", std::process::id());
+    let mut c = case.clone();
+    c["engine"] = Value::String("doc".into());
+    let body = serde_json::json!({"property": prop, "case": c});
+    if std::fs::write(&path, body.to_string()).is_err() {
+        return vec![];
+    }
+    let out = std::process::Command::new(PLAIN_BIN)
+        .args(["replay", &path])
+        .env("MC_PLAIN_CHILD", "1")
+        .output();
+    let _ = std::fs::remove_file(&path);
+    let Ok(out) = out else { return vec![] };
+    let text = String::from_utf8_lossy(&out.stdout);
+    let mut v = vec![];
+    for l in text.lines() {
+        if let Some(rest) = l.strip_prefix("  class=") {
+            let (class, detail) = rest.split_once(" detail=").unwrap_or((rest, ""));
+            v.push(Violation {
+                prop: prop.into(),
+                class: format!("plain-release:{class}"),
+                case: case.clone(),
+                detail: format!("[plain --release build] {detail}"),
+            });
+        }
+    }
+    v
 }
 
 fn main() {
@@ -92,6 +185,13 @@ fn main() {
             eprintln!("no engine for property {prop}");
             std::process::exit(2);
         }
+    }
+    if std::env::var("MC_PLAIN_CHILD").is_ok() {
+        println!("{}", r.child_summary());
+        std::process::exit(0);
+    }
+    if prop == "C01" {
+        plain_release_pass(&r, args[2].as_str());
     }
     let p = prop.to_string();
     let code = r.finish(&move |case| replay_case(&p, case));
